@@ -173,7 +173,7 @@ def run_search_family(prop, tier, props_arg, level="model_checking", families=No
         if keep:
             os.makedirs(keep, exist_ok=True)
             for f in os.listdir(work):
-                if f.startswith("fail_"):
+                if "fail" in f and f.endswith(".ndjson"):
                     shutil.copy(os.path.join(work, f), os.path.join(keep, f"{prop}_{f}"))
         shutil.rmtree(work, ignore_errors=True)
 
@@ -393,7 +393,10 @@ def refequiv_stage(tier):
 
 def c_search(prop, tier):
     # auxiliary stage in every search check: pumped haystacks compared with regexp directly (the property's own reference)
-    long_args = ["-long", "700" if tier == "quick" else "4300", "-ladder", "q" if tier == "quick" else "t"]
+    # the enumeration / longest-mode / view checks make dozens of calls per input, each returning thousands of matches on a
+    # 4200-byte input: they keep the pumped stage at 700 bytes in both tiers (the 4200-byte stage runs in C01-C03)
+    deep = tier != "quick" and prop in ("C01", "C02", "C03")
+    long_args = ["-long", "4300" if deep else "700", "-ladder", "q" if tier == "quick" else "t"]
     if prop == "C04":
         return run_search_family(prop, tier, prop, stages=iter_model_stages(tier), per_output=iter_trace_stage(prop),
                                  budget_scale=0.6 if tier == "quick" else 1.0, extra_args=long_args)
@@ -964,7 +967,7 @@ def c05(prop, tier):
         if keep:
             os.makedirs(keep, exist_ok=True)
             for f in os.listdir(work):
-                if f.startswith("fail_"):
+                if "fail" in f and f.endswith(".ndjson"):
                     shutil.copy(os.path.join(work, f), os.path.join(keep, f"{prop}_{f}"))
         shutil.rmtree(work, ignore_errors=True)
 
@@ -1033,7 +1036,7 @@ def masked_replay_check(prop, tier, jobs, subcmd, sub_args, rule, level="model_c
         if keep:
             os.makedirs(keep, exist_ok=True)
             for f in os.listdir(work):
-                if f.startswith("fail_"):
+                if "fail" in f and f.endswith(".ndjson"):
                     shutil.copy(os.path.join(work, f), os.path.join(keep, f"{prop}_{f}"))
         shutil.rmtree(work, ignore_errors=True)
 
